@@ -39,7 +39,8 @@ RULE = ("case = one load under one fault: a fault sequence (enumerated), a kill 
         " Round-4 classes: the HTTP letter of the fault alphabet stands for a transient status drawn from 503, 429, 408, 500, 502, 504; the remote loader's own defaults (gzip, unpack_dataset_columns) are exercised by omission."
         " Round-5 classes: gzip payloads of 1..3 members."
         " Round-6 classes: the permission bits of the cache entry (group / others may read as far as the umask allows)."
-        " Round-7 classes: a 'suspend' kind - a refreshing loader suspended at every line (quick: of the library's file; thorough: also tempfile / shutil / urllib) while a second loader runs to completion with downloading forbidden and with default flags; on a warm cache non-refreshing loaders of the concurrent rounds must not issue requests.")
+        " Round-7 classes: a 'suspend' kind - a refreshing loader suspended at every line (quick: of the library's file; thorough: also tempfile / shutil / urllib) while a second loader runs to completion with downloading forbidden and with default flags; on a warm cache non-refreshing loaders of the concurrent rounds must not issue requests."
+        " Round-8 classes: every loader process seeds the stdlib and NumPy global generators with the same constant (a reproducible script): names drawn from them repeat between the killed and the later run and between concurrent runs; pauses taken by other means than time.sleep are inconclusive.")
 REQUIRED_MONITORS = ["c19:suspend", "c19:entry_mode", "c19:fault_sequence", "c19:kill_line", "c19:kill_call", "c19:concurrent", "c19:flags", "c19:pairs",
                      "c19:followup_after_kill"]      # c19:kill_syscall / c19:syscall_error need strace (skipped + noted if absent)
 ASSUMPTIONS = ["process crash only (no fsync / power loss claims)", "the fake opener stands for the network"]
